@@ -106,7 +106,7 @@ func vfC11pPickRate(r *rand.Rand) uint64 {
 func TestVerifC11Pacer(t *testing.T) {
 	k := vfNewKit(t, "C11", "pacer-loop")
 	defer k.Finish()
-	n := k.N(800, 15000)
+	n := k.N(800, 60000)
 	for i := 0; i < n; i++ {
 		id := fmt.Sprintf("pacer-%d", i)
 		if rc := k.ReplayCase(); rc != "" && rc != id {
